@@ -40,6 +40,9 @@ FORMS = [
     ("two_locals", "use a, only: p => t, q => t", True, [("p", "t"), ("q", "t")]),
     ("name_and_rename", "use a, only: t, u => t, s", True, [("t", "t"), ("u", "t"), ("s", "s")]),
     ("two_locals_no_only", "use a, p => t, q => t", False, [("p", "t"), ("q", "t")]),
+    ("rename_swap", "use a, s => t, t => s", False, [("s", "t"), ("t", "s")]),
+    ("rename_chain", "use a, s => t, q => s", False, [("s", "t"), ("q", "s")]),
+    ("only_rename_chain", "use a, only: s => t, q => s, v", True, [("s", "t"), ("q", "s"), ("v", "v")]),
     ("only_empty", "use a, only:", True, []),
     ("only_empty_blank", "use a, only :  ", True, []),
 ]
@@ -244,7 +247,39 @@ def shadowed_external():
     return bad
 
 
+OVERLAP = {
+    "src/grid.f90": "module grid_mod\n  implicit none\n  integer :: rows, cols, depth\n  type :: cell\n    integer :: c\n  end type cell\n  type :: node\n    integer :: n\n  end type node\ncontains\n"
+                    "  subroutine push()\n  end subroutine push\n  subroutine pop()\n  end subroutine pop\nend module grid_mod\n",
+    "src/swap.f90": "module swap_mod\n  use grid_mod, rows => cols, cols => rows, cell => node, node => cell, push => pop, pop => push\n  implicit none\nend module swap_mod\n",
+    "src/shuffle.f90": "module shuffle_mod\n  use grid_mod, width => rows, rows => depth, spare => cell, cell => node, shove => push, push => pop\n  implicit none\nend module shuffle_mod\n",
+}
+
+
+def overlapping_renames():
+    """rename clauses of one USE statement are simultaneous: the remote name of one clause may be the local name of another (a swap, a chain); every clause refers to the entity the
+    used module exports under that name"""
+    proj = realrun.build_project(OVERLAP, display=["public", "private", "protected"])
+    mods = {m.name: m for m in proj.modules}
+    g = mods["grid_mod"]
+    ent = {"rows": g.all_vars["rows"], "cols": g.all_vars["cols"], "depth": g.all_vars["depth"], "cell": g.all_types["cell"], "node": g.all_types["node"], "push": g.all_procs["push"], "pop": g.all_procs["pop"]}
+    want = {"swap_mod": {"rows": "cols", "cols": "rows", "depth": "depth", "cell": "node", "node": "cell", "push": "pop", "pop": "push"},
+            "shuffle_mod": {"width": "rows", "rows": "depth", "cols": "cols", "spare": "cell", "cell": "node", "shove": "push", "push": "pop"}}
+    bad = []
+    for mn, exp in want.items():
+        m = mods[mn]
+        tables = {}
+        for t in (m.all_vars, m.all_types, m.all_procs):
+            tables.update(t)
+        got = {k: next((n for n, e in ent.items() if e is v), "?") for k, v in tables.items() if any(e is v for e in ent.values())}
+        if got != exp:
+            bad.append(f"{mn}: local name -> entity of grid_mod is {dict(sorted(got.items()))}, the USE statement says {dict(sorted(exp.items()))}")
+    return bad
+
+
 def search():
+    bad = overlapping_renames()
+    if bad:
+        return {"confirmed": True, "input": {"files": OVERLAP}, "actual": bad, "expected": "the rename clauses of a USE statement apply simultaneously", "how": "bounded search on the real pipeline: swapped and chained renames without ONLY"}
     bad = shadowed_external()
     if bad:
         return {"confirmed": True, "input": {"files": SHADOW, "settings": {"extra_mods": {"vendor_lib": "https://vendor.example/lib"}}}, "actual": bad,
